@@ -73,7 +73,7 @@ func (w *Writer) NewDoc(id string, evs []Ev) (*Doc, error) {
 // ---------------------------------------------------------------- environments
 
 var SpecialNums = []float64{math.NaN(), math.Inf(1), math.Inf(-1), 0, math.Copysign(0, -1), 0.5, -0.5, 1.5, -1.5, 2.5, -2.5,
-	0.49999999999999994, 4503599627370497, 9007199254740992, 9223372036854775808, 1e21, 1e-7, 5e-324, math.MaxFloat64,
+	0.49999999999999994, -0.49999999999999994, -0.5000000000000001, 4503599627370497, 9007199254740992, 9223372036854775808, 1e21, 1e-7, 5e-324, math.MaxFloat64,
 	3, -1, 1e300, 1, 2, 10, -3.75, 0.1, 1e15, 123456789012345680, 1.0000000000000002, 255, 1e22, 0.000001, 1234.5678}
 
 func GenEnv(r *Rng, d *Dump, userFns bool) Env {
